@@ -634,6 +634,10 @@ where
                 set_current_route_locale(locale);
                 StaticSegment(locale.as_str())
                     .test(path)
+                    // the prefix must be the whole locale name, not only the start of it ("/fi" is not "fil")
+                    .filter(|partial_path_match| {
+                        partial_path_match.matched().trim_start_matches('/') == locale.as_str()
+                    })
                     .and_then(|partial_path_match| {
                         let remaining = partial_path_match.remaining();
                         let matched = partial_path_match.matched();
